@@ -32,6 +32,9 @@ class Shadow:
         self.known = graphs.UnionFind()  # what the DB is obliged to know
         self.fresh = True  # no edge since the last cycle detection
         self._comp = None
+        # a database not seen at construction (unpickled): its history is unknown, nothing is
+        # judged (shadows of databases seen at construction are created by the __init__ wrapper)
+        self.partial = True
 
     def add_edge(self, a, b, two_way):
         self.labels.update((a, b))
@@ -136,6 +139,9 @@ def matches_scc(self):
     """Postcondition of connect_cycles."""
     if _DEPTH[0] > 0:
         return True
+    if shadow_of(self).partial:
+        base.ctx().count("equiv.unknown_history_not_judged")
+        return True
     cx = base.ctx()
     sh = shadow_of(self)
     comp = sh.comp()
@@ -180,6 +186,9 @@ def matches_scc(self):
 def equivalent_bounded(self, label, other_label, result):
     if _DEPTH[0] > 0:
         return True
+    if shadow_of(self).partial:
+        base.ctx().count("equiv.unknown_history_not_judged")
+        return True
     cx = base.ctx()
     sh = shadow_of(self)
     if len(sh.labels) > 4 * CONFIG["cap_labels"]:
@@ -209,6 +218,9 @@ def equivalent_bounded(self, label, other_label, result):
 def verified_bounded(self, comb_class, result):
     if _DEPTH[0] > 0:
         return True
+    if shadow_of(self).partial:
+        base.ctx().count("equiv.unknown_history_not_judged")
+        return True
     cx = base.ctx()
     sh = shadow_of(self)
     if len(sh.labels) > 4 * CONFIG["cap_labels"]:
@@ -237,6 +249,9 @@ def verified_bounded(self, comb_class, result):
 
 def path_valid(self, comb_class, other_comb_class, result):
     if _DEPTH[0] > 0:
+        return True
+    if shadow_of(self).partial:
+        base.ctx().count("equiv.unknown_history_not_judged")
         return True
     cx = base.ctx()
     sh = shadow_of(self)
@@ -282,6 +297,13 @@ def install():
     if _INSTALLED:
         return
     E = equiv_db.EquivalenceDB
+    orig_init = E.__init__
+
+    def __init__(self):
+        orig_init(self)
+        shadow_of(self).partial = False
+
+    E.__init__ = __init__
     E.connect_cycles = icontract.ensure(matches_scc, error=_error)(_with_depth(E.connect_cycles, ["self"]))
     E.equivalent = icontract.ensure(equivalent_bounded, error=_error2)(_with_depth(E.equivalent, ["self", "label", "other_label"]))
     E.is_verified = icontract.ensure(verified_bounded, error=_error1)(_with_depth(E.is_verified, ["self", "comb_class"]))
